@@ -149,20 +149,20 @@ func outcomeString(ops []string, rs []result, final string) string {
 	return b.String()
 }
 
-func newConcBackend(be string, nh int) (*oneBackend, error) {
+func newConcBackend(be string, sp Space) (*oneBackend, error) {
 	if be == "kv" {
 		b, err := newKVBackend(false) // raw bbolt: real kvdb.Batch
 		if err != nil {
 			return nil, err
 		}
-		return &oneBackend{b: b, nh: nh}, nil
+		return &oneBackend{b: b, nh: len(sp.RegIDs)}, nil
 	}
-	return newOneBackend("sql", nh)
+	return newOneBackend("sql", sp)
 }
 
 // concurrentRun issues ops concurrently after the prefix.
-func concurrentRun(be string, nh int, hist, ops []string) (rs []result, final string, infra bool, err error) {
-	o, err := newConcBackend(be, nh)
+func concurrentRun(be string, sp Space, hist, ops []string) (rs []result, final string, infra bool, err error) {
+	o, err := newConcBackend(be, sp)
 	if err != nil {
 		return nil, "", false, err
 	}
@@ -170,11 +170,11 @@ func concurrentRun(be string, nh int, hist, ops []string) (rs []result, final st
 	if _, err := o.run(hist); err != nil {
 		return nil, "", false, err
 	}
-	parsed := make([]op, len(ops))
-	for i, raw := range ops {
-		if parsed[i], err = parseOp(raw); err != nil {
-			return nil, "", false, err
-		}
+	// the calls are fixed before they are released (amount tokens resolved in the
+	// base state); the sequential orders execute the same calls
+	parsed, err := o.resolveAll(ops)
+	if err != nil {
+		return nil, "", false, err
 	}
 	rs = make([]result, len(ops))
 	var wg, ready sync.WaitGroup
@@ -209,8 +209,8 @@ func concurrentRun(be string, nh int, hist, ops []string) (rs []result, final st
 	return rs, o.final(), infra, nil
 }
 
-func seqRun(be string, nh int, hist, order []string) ([]result, string, error) {
-	o, err := newOneBackend(be, nh)
+func seqRun(be string, sp Space, hist, order []string) ([]result, string, error) {
+	o, err := newOneBackend(be, sp)
 	if err != nil {
 		return nil, "", err
 	}
@@ -218,7 +218,11 @@ func seqRun(be string, nh int, hist, order []string) ([]result, string, error) {
 	if _, err := o.run(hist); err != nil {
 		return nil, "", err
 	}
-	rs, err := o.run(order)
+	ops, err := o.resolveAll(order)
+	if err != nil {
+		return nil, "", err
+	}
+	rs, err := o.runOps(ops)
 	if err != nil {
 		return nil, "", err
 	}
@@ -233,8 +237,8 @@ type concStats struct {
 }
 
 // checkConc returns a description if the concurrent outcome is not linearizable.
-func checkConc(be string, nh int, hist, ops []string, cs *concStats) (bad string, err error) {
-	rs, fin, infra, err := concurrentRun(be, nh, hist, ops)
+func checkConc(be string, sp Space, hist, ops []string, cs *concStats) (bad string, err error) {
+	rs, fin, infra, err := concurrentRun(be, sp, hist, ops)
 	atomic.AddInt64(&cs.Execs, 1)
 	if err != nil {
 		if strings.HasPrefix(err.Error(), "panic:") {
@@ -249,7 +253,7 @@ func checkConc(be string, nh int, hist, ops []string, cs *concStats) (bad string
 	got := outcomeString(ops, rs, fin)
 	var tried []string
 	for i, perm := range permutations(ops) {
-		srs, sfin, err := seqRun(be, nh, hist, perm)
+		srs, sfin, err := seqRun(be, sp, hist, perm)
 		atomic.AddInt64(&cs.Execs, 1)
 		if err != nil {
 			return "", err
@@ -329,7 +333,6 @@ func TestC16Conc(t *testing.T) {
 		capHit  atomic.Value
 		workers = envInt("C16_WORKERS", 8)
 	)
-	nh := len(sp.RegIDs)
 	for wk := 0; wk < workers; wk++ {
 		wg.Add(1)
 		go func() {
@@ -346,7 +349,7 @@ func TestC16Conc(t *testing.T) {
 				c := cases[i]
 				atomic.AddInt64(&cs.Cases, 1)
 				for _, be := range []string{"kv", "sql"} {
-					bad, err := checkConc(be, nh, c.hist, c.ops, cs)
+					bad, err := checkConc(be, sp, c.hist, c.ops, cs)
 					if err != nil {
 						run.Violation("harness:conc-error", fmt.Sprintf("%v || %v on %s: %v", c.hist, c.ops, be, err), nil)
 						continue
@@ -359,7 +362,7 @@ func TestC16Conc(t *testing.T) {
 					// explained), 3 times.
 					again := 0
 					for j := 0; j < 3; j++ {
-						if b2, _ := checkConc(be, nh, c.hist, c.ops, cs); b2 != "" {
+						if b2, _ := checkConc(be, sp, c.hist, c.ops, cs); b2 != "" {
 							again++
 						}
 					}
@@ -410,13 +413,13 @@ func TestC16Conc(t *testing.T) {
 
 // replayConc re-executes a concurrent case (narrated).
 func replayConc(run *evid.Run, doc replayDoc) int {
-	nh := len(doc.Space.RegIDs)
+	sp := doc.Space
 	be := doc.Conc.Be
 	fmt.Printf("INFO concurrent case on %s: prefix %v, then %v issued by %d goroutines at once\n", be, doc.History, doc.Conc.Ops, len(doc.Conc.Ops))
 	cs := &concStats{ByPerm: map[string]int64{}, Outcomes: map[string]bool{}}
 	bad := 0
 	for i := 0; i < 5; i++ {
-		rs, fin, infra, err := concurrentRun(be, nh, doc.History, doc.Conc.Ops)
+		rs, fin, infra, err := concurrentRun(be, sp, doc.History, doc.Conc.Ops)
 		if err != nil {
 			fmt.Printf("INFO run %d: error %v\n", i+1, err)
 			if strings.HasPrefix(err.Error(), "panic:") {
@@ -427,13 +430,13 @@ func replayConc(run *evid.Run, doc replayDoc) int {
 		fmt.Printf("INFO run %d: %s%s\n", i+1, outcomeString(doc.Conc.Ops, rs, fin), map[bool]string{true: " (busy/locked: inconclusive)", false: ""}[infra])
 	}
 	for _, perm := range permutations(doc.Conc.Ops) {
-		srs, sfin, err := seqRun(be, nh, doc.History, perm)
+		srs, sfin, err := seqRun(be, sp, doc.History, perm)
 		if err == nil {
 			fmt.Printf("INFO sequential %v: %s\n", perm, outcomeString(perm, srs, sfin))
 		}
 	}
 	for i := 0; i < 3; i++ {
-		b, err := checkConc(be, nh, doc.History, doc.Conc.Ops, cs)
+		b, err := checkConc(be, sp, doc.History, doc.Conc.Ops, cs)
 		if err == nil && b != "" {
 			bad++
 			fmt.Printf("INFO    !! not linearizable: %s\n", b)
